@@ -27,7 +27,7 @@ CLASSES = [
                       "_exe_deps": "List[Operation]#edeps", "_waiting_on": "int", "_deps_of": "List[Operation]#depsof"},
               virtual={"parallelizable": "bool", "main_task": "Opt[TaskType]", "associated_task": "Opt[TaskType]"},
               ghost={"g_inplan": "bool", "g_phase": "int", "g_marks": "Arr[int,bool]", "g_culprit": "Opt[Operation]",
-                     "g_finished_ok": "bool", "g_started": "bool", "g_back": "Arr[int,int]"}),
+                     "g_finished_ok": "bool", "g_started": "bool", "g_back": "Arr[int,int]", "g_tid": "TaskIdentifier", "g_idx": "int"}),
     ClassDecl("OutputHandler", file="utils/output_handler.py"),
     ClassDecl("OperationExecutionHandle", file="execution/handle.py",
               fields={"pid": "Opt[int]", "stdout": "Opt[OutputHandler]", "stderr": "Opt[OutputHandler]",
@@ -414,6 +414,7 @@ CONTRACTS = [
                       C("nothing_in_flight", "card(self._inflight_ops._processes) == 0 and seq_len(self._inflight_ops._sync_ops) == 0"
                                              " and forall(p, 'int', not (p in self._inflight_ops._processes))"),
                       C("all_slots_free", "slots_inv(self)", "C04"),
+                      C("slot_list_is_a_new_list", "fresh(self._available_slots)"),
                       C("sequential_mode", "not self._running_parallel and self._num_tasks_dequeued == 0")],
              raises={"OSError": []},
              inline=["clear"]),
